@@ -1642,4 +1642,65 @@ theorem asciiTables_ok : TablesOk asciiTables where
     · rfl
   lower_ascii _ _ := rfl
 
+/-- a format string without white space compiles to a pattern without `\s+` -/
+theorem scan_noSpaces (fmt : Str) (hfmt : fmt.all (fun c => !isPySpace c) = true) :
+    ∀ items, scan fmt = .ok items → noSpacesItems items = true := by
+  have key : ∀ (n : Nat) (fmt : Str), fmt.length ≤ n → fmt.all (fun c => !isPySpace c) = true →
+      ∀ items, scan fmt = .ok items → noSpacesItems items = true := by
+    intro n
+    induction n with
+    | zero =>
+      intro fmt hl _ items h
+      cases fmt with
+      | nil => simp [scan] at h; subst h; rfl
+      | cons c r => simp at hl
+    | succ n ih =>
+      intro fmt hl hall items h
+      cases fmt with
+      | nil => simp [scan] at h; subst h; rfl
+      | cons c r =>
+        simp only [List.all_cons, Bool.and_eq_true, Bool.not_eq_true'] at hall
+        rw [scan.eq_def] at h; simp only at h
+        split at h
+        · split at h
+          · cases h
+          · rename_i k r'
+            have hall' : r'.all (fun c => !isPySpace c) = true := by
+              have := hall.2; simp only [List.all_cons, Bool.and_eq_true] at this; exact this.2
+            have hl' : r'.length ≤ n := by simp at hl; omega
+            split at h
+            · cases h
+            · split at h
+              · cases h
+              · cases h
+              · cases hr : scan r' with
+                | error e => simp [hr, Except.map] at h
+                | ok its =>
+                  simp only [hr, Except.map, Except.ok.injEq] at h
+                  subst h
+                  simpa [noSpacesItems, isSpaces] using ih r' hl' hall' its hr
+              · cases hr : scan r' with
+                | error e => simp [hr, Except.map] at h
+                | ok its =>
+                  simp only [hr, Except.map, Except.ok.injEq] at h
+                  subst h
+                  simpa [noSpacesItems, isSpaces] using ih r' hl' hall' its hr
+        · have hl' : r.length ≤ n := by simp at hl; omega
+          rw [if_neg (by rw [hall.1]; exact Bool.false_ne_true)] at h
+          cases hr : scan r with
+          | error e => simp [hr, Except.map] at h
+          | ok its =>
+            simp only [hr, Except.map, Except.ok.injEq] at h
+            subst h
+            simpa [noSpacesItems, isSpaces] using ih r hl' hall.2 its hr
+  exact key fmt.length fmt (Nat.le_refl _) hfmt
+
+theorem no_blank_of_noSpaces (fmt : Str) (hfmt : fmt.all (fun c => !isPySpace c) = true) : fmt.contains ' ' = false := by
+  cases h : fmt.contains ' ' with
+  | false => rfl
+  | true =>
+    have hm : ' ' ∈ fmt := by simpa using h
+    have := (List.all_eq_true.mp hfmt) ' ' hm
+    revert this; decide
+
 end TallyVerif.Strptime
